@@ -231,9 +231,9 @@ type keyModel struct {
 	// the server may have applied them in either order.
 	ambiguous bool
 	since     int // updates received since the last acknowledged track of the key
-	deltas  int
-	fulls   int
-	cached  int
+	deltas    int
+	fulls     int
+	cached    int
 }
 
 type subPeriod struct {
@@ -256,6 +256,7 @@ type model struct {
 	untrackAcks  int
 	trackAcks    int
 	ambiguous    int
+	retrackEarly int
 }
 
 func (m *model) key(k string) *keyModel {
@@ -317,6 +318,48 @@ func (cr *connRec) foldx(tr *truth, versioned, backendBase bool, report reporter
 			m.periods[n-1].endAt = f.At
 		}
 	}
+	frames := cr.conn.T.Frames()
+	replySeq := map[uint32]int64{}
+	anyReplySeq := map[uint32]int64{}
+	for _, f := range frames {
+		if f.Reply != nil && f.Reply.Id != 0 {
+			anyReplySeq[f.Reply.Id] = f.Seq
+			if f.Reply.Error == nil {
+				replySeq[f.Reply.Id] = f.Seq
+			}
+		}
+	}
+	cr.mu.Lock()
+	type trk struct {
+		id  uint32
+		rec *cmdRec
+	}
+	var tracks []trk
+	for id, rec := range cr.cmds {
+		if rec.kind == "track" {
+			tracks = append(tracks, trk{id, rec})
+		}
+	}
+	cr.mu.Unlock()
+	// retrackInFlight: a track of the key was sent before this frame and its reply comes
+	// later. The server commits a track (per-connection version := claimed version, first
+	// update full again) before it writes the reply, so an update that another goroutine
+	// broadcasts in between already follows the new claim.
+	retrackInFlight := func(key string, seq int64, version uint64) (uint32, bool) {
+		for _, t := range tracks {
+			if t.rec.seq > seq {
+				continue
+			}
+			if rs, ok := anyReplySeq[t.id]; ok && rs < seq {
+				continue
+			}
+			if cl, ok := t.rec.claims[key]; ok && cl < version {
+				return t.id, true
+			}
+		}
+		return 0, false
+	}
+	acceptedInFlight := map[uint32]map[string]uint64{}
 	applyPub := func(f kit.Frame, p *protocol.Publication, via string) {
 		km := m.key(p.Key)
 		extra := map[string]any{"key": p.Key, "version": p.Version, "delta": p.Delta, "via": via, "frame_seq": f.Seq}
@@ -337,6 +380,18 @@ func (cr *connRec) foldx(tr *truth, versioned, backendBase bool, report reporter
 		}
 		if km.broken {
 			return
+		}
+		if p.Version <= km.base {
+			if id, ok := retrackInFlight(p.Key, f.Seq, p.Version); ok && via == "push" && !p.Delta {
+				if acceptedInFlight[id] == nil {
+					acceptedInFlight[id] = map[string]uint64{}
+				}
+				if p.Version > acceptedInFlight[id][p.Key] {
+					acceptedInFlight[id][p.Key] = p.Version
+					m.retrackEarly++
+					km.base = 0
+				}
+			}
 		}
 		if p.Version <= km.base {
 			km.broken = true
@@ -398,25 +453,6 @@ func (cr *connRec) foldx(tr *truth, versioned, backendBase bool, report reporter
 		km.have, km.data, km.ver, km.ep, km.wid = true, out, p.Version, m.epoch, w.ID
 	}
 
-	frames := cr.conn.T.Frames()
-	replySeq := map[uint32]int64{}
-	for _, f := range frames {
-		if f.Reply != nil && f.Reply.Id != 0 && f.Reply.Error == nil {
-			replySeq[f.Reply.Id] = f.Seq
-		}
-	}
-	cr.mu.Lock()
-	type trk struct {
-		id  uint32
-		rec *cmdRec
-	}
-	var tracks []trk
-	for id, rec := range cr.cmds {
-		if rec.kind == "track" {
-			tracks = append(tracks, trk{id, rec})
-		}
-	}
-	cr.mu.Unlock()
 	overlappingTrack := func(key string, untrack *cmdRec, untrackReplySeq int64) bool {
 		for _, t := range tracks {
 			rs, ok := replySeq[t.id]
@@ -460,6 +496,9 @@ func (cr *connRec) foldx(tr *truth, versioned, backendBase bool, report reporter
 					km := m.key(k)
 					km.tracked = true
 					km.base = rec.claims[k]
+					if v := acceptedInFlight[f.Reply.Id][k]; v > km.base {
+						km.base = v // delivered after the commit of this track, before its reply
+					}
 					km.endedBy = ""
 					km.broken = false
 					km.ambiguous = false
@@ -1230,9 +1269,15 @@ func runCase(c *kit.Case) {
 		if cr.conn == nil {
 			continue
 		}
+		type pendingV struct {
+			class, msg string
+			extra      map[string]any
+		}
+		var pending []pendingV
 		m := cr.foldx(tr, cfg.Versioned, cfg.PrevData && !cfg.KeepLatest, func(class, msg string, extra map[string]any) {
-			c.Violation(class, msg, cfgDetail(cr, extra))
+			pending = append(pending, pendingV{class, msg, extra})
 		})
+		c.Count("updates_after_retrack_commit_before_its_reply", m.retrackEarly)
 		d, f, ca := 0, 0, 0
 		for _, km := range m.keys {
 			d += km.deltas
@@ -1253,9 +1298,45 @@ func runCase(c *kit.Case) {
 		}
 		sig += fmt.Sprintf("|%s:%v:%d:%d:%d", cr.proto, m.delta, bucket(d), bucket(f), bucket(ca))
 
+		// Version numbers restart with a publisher epoch. A subscription that was not
+		// ended by an epoch change it was current for (open finding: only subscribers with
+		// a key in the keyed hub at that instant are ended) keeps versions and data of
+		// the old epoch; version and delta mismatches on it afterwards are consequences
+		// of that, not defects of their own.
+		clientID := cr.conn.Client.ID()
+		type span struct{ from, to int64 }
+		var staleEpoch []span
+		for _, dl := range deliveries {
+			if dl.Prev == "" || dl.Hub[clientID] {
+				continue
+			}
+			for _, p := range m.periods {
+				if p.start < dl.Seq && (p.end == 0 || p.end > dl.Seq) && !(p.endKind == "unsub-push" && p.code == insufficientStateCode) {
+					staleEpoch = append(staleEpoch, span{dl.Seq, p.end})
+				}
+			}
+		}
+		for _, pv := range pending {
+			consequence := false
+			switch pv.class {
+			case "c25-pushed-version-not-strictly-increasing", "c25-delta-push-does-not-apply-to-held-data", "c25-delta-built-from-backend-prevdata-does-not-apply-to-held-data",
+				"c25-reconstructed-data-differs-from-source-of-truth", "c25-pushed-version-does-not-match-its-data", "c25-delta-push-without-a-base":
+				fs, _ := pv.extra["frame_seq"].(int64)
+				for _, sp := range staleEpoch {
+					if fs > sp.from && (sp.to == 0 || fs < sp.to) {
+						consequence = true
+					}
+				}
+			}
+			if consequence {
+				c.Count("version_or_delta_mismatch_on_subscription_not_ended_by_epoch_change", 1)
+				continue
+			}
+			c.Violation(pv.class, pv.msg, cfgDetail(cr, pv.extra))
+		}
+
 		// (5) a publisher epoch change ends the subscriptions that were current
 		missedEpoch := false
-		clientID := cr.conn.Client.ID()
 		for _, dl := range deliveries {
 			if dl.Prev == "" {
 				continue // first epoch ever handed over: no change
